@@ -67,6 +67,22 @@ class F(Core.Component):
         return 0
 
 
+class Bag(Core.Agent):
+    """An agent class with its own notion of length (e.g. the number of items it carries): here always 0."""
+
+    def __len__(self):
+        return 0
+
+
+def odd_agent(i, m):
+    """Every tenth agent of a population is a nested (empty) environment used as an agent, another tenth a Bag."""
+    if i % 10 == 7:
+        return Core.Environment(m, f'g{i}')
+    if i % 10 == 3:
+        return Bag(f'g{i}', m)
+    return Core.Agent(f'g{i}', m)
+
+
 def handover_case(case):
     """An environment built for one model is handed over to another (set_model + set_environment): from then on its
     agents' components are listed by the new model only."""
@@ -75,7 +91,21 @@ def handover_case(case):
     ma, mb = new_model(seed=1), new_model(seed=2)
     mk, pos = KINDS[case['kind']]
     env = mk(ma) if mk is not None else Core.Environment(ma)
-    ma.set_environment(env)
+    if case.get('populate_first'):
+        # the world is populated BEFORE it is installed: installing it does not change who lives in it
+        settler = Core.Agent('settler', ma)
+        cs = X(settler, ma)
+        settler.add_component(cs)
+        env.add_agent(settler, *pos)
+        ma.set_environment(env)
+        if ma.systems[X] != [cs] or [a.id for a in ma.environment] != ['settler']:
+            raise Violation('a world populated before model.set_environment(world): the model does not list the '
+                            'components of the agents living in it', expected=['settler.X'], observed=repr(ma.systems[X]))
+        env.remove_agent('settler')
+        if ma.systems[X] is not None:
+            raise Violation('after the settler left, its component is still listed')
+    else:
+        ma.set_environment(env)
     first = Core.Agent('early', ma)
     cx0 = X(first, ma)
     first.add_component(cx0)
@@ -118,7 +148,7 @@ def scale_case(case):
     types = {'X': X, 'Y': Y, 'P2': P2, 'F': F}
     agents, comps = [], {}
     for i in range(n):
-        a = Core.Agent(f'g{i}', m)
+        a = odd_agent(i, m)
         for T in ('X',) + (('Y',) if i % 2 else ()) + (('P2',) if i % 3 == 0 else ()) + (('F',) if i % 4 == 1 else ()):
             c = types[T](a, m)
             a.add_component(c)
@@ -572,8 +602,8 @@ def run(ctx):
             ctx.report({k: (list(x) if isinstance(x, tuple) else x) for k, x in case.items()}, v)
             return
     for kind in (('plain', 'grid', 'line') if ctx.tier == 'quick' else tuple(KINDS)):
-        for early in (False, True):
-            case = {'leg': 'handover', 'kind': kind, 'early_join': early}
+        for early, pf in ((False, False), (True, False), (True, True)):
+            case = {'leg': 'handover', 'kind': kind, 'early_join': early, 'populate_first': pf}
             ctx.traces += 1
             try:
                 ctx.transitions += hbfs._guard(handover_case, case)
